@@ -165,6 +165,10 @@ def run(F, R, tier):
     not_arbitrary = lambda fn: "arbitrary::Arbitrary" not in fn.name  # fuzzing support generated by derive(Arbitrary), not on the conversion path
     seen = run_pps(F, R, "R10", ENTRIES, kinds, CHA, armed=armed, crate_scope={"tfm.lib", "tftopl.bin", "pltotf.bin", "common.lib"}, fn_filter=not_arbitrary, floor_fns=300, floor_sites=60,
                    what=": arbitrary bytes / text must give a result or a documented error")
+    import json, os
+    from .common import recursion_rule
+    tab = json.load(open(os.path.join(os.path.dirname(os.path.dirname(os.path.dirname(os.path.abspath(__file__)))), "tables", "recursion_audited.json")))
+    recursion_rule(F, R, "R10.6", "the TFM/PL conversions", seen, {"tfm.lib", "tftopl.bin", "pltotf.bin", "common.lib"}, tab)
     return ("Static analysis (partial claim). Decided: every potential-panic site (explicit panics, unwrap family, assert terminators, curated std calls) "
             "reachable from tfm_to_pl / pl_to_tfm / the tftopl and pltotf tools is discharged (constant, dominating guard, type), audited with a per-site "
             "invariant (some re-checked by `requires` clauses), or a reproduced finding; the eleven sub-file sizes are checked non-negative before slicing "
